@@ -43,7 +43,7 @@ FUNCTIONS = {"col_sum": col_sum, "col_first_two": col_first_two, "np.log1p": np.
 SKLEARN = {c.__name__: c for c in [KMeans, PCA, DummyRegressor, LinearRegression, LogisticRegression, Ridge, GaussianNB,
                                    KBinsDiscretizer, MinMaxScaler, StandardScaler, DecisionTreeClassifier, DecisionTreeRegressor, Pipeline]}
 HARNESS = {c.__name__: c for c in [H.RecordingRegressor, H.RecordingClassifier, H.CentroidClassifier, H.FailingRegressor,
-                                   H.FailingClassifier, H.FailingTransformer, H.FakeTSNE]}
+                                   H.FailingClassifier, H.FailingTransformer, H.FakeTSNE, H.KwargsRegressor, H.KwargsClassifier, H.SkewedClassifier]}
 
 _MODS = {
     "ApproximateNMFPredictor": "mlmodel.anmf_predictor", "CategoriesToIntegers": "mlmodel.categories_to_integers",
